@@ -21,6 +21,9 @@ static inline void *vg_malloc(size_t n) {
     size_t pg = 4096;
     size_t n8 = (n + 7) & ~(size_t)7;
     if (n8 == 0) n8 = 8;
+    /* VERIF_GUARD_SLACK=<bytes>: accessible bytes between the block and the guard page (default 0).  The optimised kernels of the
+       external BLAS read up to one vector register past their operands; a crash that disappears with a slack of 64 bytes is theirs. */
+    { const char *sl = getenv("VERIF_GUARD_SLACK"); if (sl) n8 += ((size_t)atoi(sl) + 7) & ~(size_t)7; }
     /* layout: [guard page][hdr page ... data][guard page] */
     size_t datapages = (n8 + sizeof(vg_hdr) + pg - 1) / pg;
     size_t maplen = (datapages + 2) * pg;
